@@ -363,6 +363,11 @@ func (b *linkBuilder) observe() [][2]any {
 			out = append(out, [2]any{r.path, []string{"?", "?", "not an *ObjectSchema"}})
 			continue
 		}
+		if ptr == nil {
+			// "ready", but the link is a typed nil: not linked to anything
+			out = append(out, [2]any{r.path, []string{"!", "!", "ObjectReady() but GetObject() is a nil *ObjectSchema"}})
+			continue
+		}
 		a, known := b.objs[ptr]
 		if !known {
 			out = append(out, [2]any{r.path, []string{"?", "?", "unknown object " + ptr.ID()}})
@@ -1280,7 +1285,10 @@ func refsCmd(a Args) {
 	}
 	for _, stream := range strings.Split(streams, ",") {
 		switch stream {
+		case "failing":
+			groupFailing(s)
 		case "link":
+			groupFailing(s)
 			for i := 0; i < a.N*10*mult; i++ {
 				groupLink(s, g)
 			}
